@@ -3,7 +3,8 @@
 $TEXSOUP_REPO/TexSoup/data.py (default /repo).
 
 __init__, __coerce, append, extend, insert, remove, pop, reverse, clear and
-__getitem__ are read with the Python `ast` module only (nothing is imported
+__getitem__ -- and the classmethod TexGroup.parse, which __coerce calls -- are read with the
+Python `ast` module only (nothing is imported
 or executed) and written as terms of the language of
 coq/theories/Model/ArgDSL.v, one Coq constructor per Python construct.
 Proofs/ArgGenProofs.v then proves that interpreting each generated term is
@@ -15,12 +16,22 @@ Fail-closed: any statement or expression shape that is not listed in ArgDSL.v
 raises TranslationError, as does a change of what the reading relies on: the
 set of methods of the class and its base (list), a rebinding of isinstance /
 str / list / len / max / min / super / TexGroup / TexCmd / TexArgs, the
-source of TexGroup.parse, of TexExpr.__eq__ and of the delimiters of
-BraceGroup / BracketGroup / arg_type (pinned to the reference text below),
+source of TexExpr.__eq__ and of the delimiters of
+BraceGroup / BracketGroup / arg_type (pinned to the reference text below), a decorator of
+TexGroup.parse other than @classmethod,
 an __eq__ defined between TexExpr and the two group classes.
 
 The output depends on the abstract syntax only: comments, docstrings, layout
-and the names of parameters and locals do not change it.
+and the names of parameters and locals do not change it.  Normalised before the
+translation (each rewrite is an identity of Python's semantics, see `normalise`):
+annotations are dropped; `x += e` / `x -= e` on a local name is `x = x + e` (the
+language has int arithmetic only, anything else is OUnsup); `if c: x = a else: x = b`
+is `x = a if c else b`; an `else` after a branch that always returns is hoisted
+(`if c: return a else: S` = `if c: return a` followed by S); the empty tuple as the
+default of a parameter that is only iterated is the empty list; the order of the
+method definitions in the class body is irrelevant (emitted in a fixed order);
+additional methods whose names neither are list methods / special methods nor are
+called by a translated method are ignored.
 
 Usage: gen_args.py <out.v>        exit 0 = written (only if content changed)
                                   exit 2 = translation failed (message on stderr)
@@ -69,15 +80,88 @@ def zlit(v):
     return '%d%%Z' % v if v >= 0 else '(%d)%%Z' % v
 
 
+def always_returns(body):
+    if not body:
+        return False
+    last = body[-1]
+    if isinstance(last, ast.Return):
+        return True
+    if isinstance(last, ast.If):
+        return always_returns(last.body) and always_returns(last.orelse)
+    return False
+
+
+def same_target(a, b):
+    return isinstance(a, ast.Name) and isinstance(b, ast.Name) and a.id == b.id
+
+
+def normalise_block(body):
+    """Semantics-preserving rewrites of a statement list (see the module docstring)."""
+    out = []
+    for st in body:
+        if isinstance(st, ast.AnnAssign) and st.simple and isinstance(st.target, ast.Name):
+            if st.value is None:
+                continue
+            st = ast.copy_location(ast.Assign(targets=[st.target], value=st.value), st)
+        if isinstance(st, ast.AugAssign) and isinstance(st.target, ast.Name) \
+                and isinstance(st.op, (ast.Add, ast.Sub)):
+            load = ast.copy_location(ast.Name(id=st.target.id, ctx=ast.Load()), st)
+            st = ast.copy_location(ast.Assign(
+                targets=[st.target],
+                value=ast.copy_location(ast.BinOp(left=load, op=st.op, right=st.value), st)), st)
+        if isinstance(st, ast.If):
+            st = ast.copy_location(ast.If(test=st.test, body=normalise_block(st.body),
+                                          orelse=normalise_block(st.orelse)), st)
+            b, e = st.body, st.orelse
+            if len(b) == 1 and len(e) == 1 and isinstance(b[0], ast.Assign) and isinstance(e[0], ast.Assign) \
+                    and len(b[0].targets) == 1 and len(e[0].targets) == 1 \
+                    and same_target(b[0].targets[0], e[0].targets[0]):
+                st = ast.copy_location(ast.Assign(
+                    targets=[b[0].targets[0]],
+                    value=ast.copy_location(ast.IfExp(test=st.test, body=b[0].value, orelse=e[0].value), st)),
+                    st)
+            elif e and always_returns(b):
+                out.append(ast.copy_location(ast.If(test=st.test, body=b, orelse=[]), st))
+                out.extend(e)
+                continue
+        elif isinstance(st, ast.For):
+            st = ast.copy_location(ast.For(target=st.target, iter=st.iter, body=normalise_block(st.body),
+                                           orelse=st.orelse, type_comment=None), st)
+        out.append(st)
+    return out
+
+
+EXTRA = ['parse']      # TexGroup.parse
 TRANSLATED = ['__init__', '__coerce', 'append', 'extend', 'insert', 'remove', 'pop', 'reverse',
               'clear', '__getitem__']
 UNTRANSLATED = ['__contains__', '__str__', '__repr__']
 COQ_METH = {'__init__': 'M_init', '__coerce': 'M_coerce', '__getitem__': 'M_getitem'}
 GEN_NAME = {'__init__': 'gen_a_init', '__coerce': 'gen_a_coerce', '__getitem__': 'gen_a_getitem'}
-for _m in TRANSLATED:
+for _m in TRANSLATED + EXTRA:
     COQ_METH.setdefault(_m, 'M_' + _m)
     GEN_NAME.setdefault(_m, 'gen_a_' + _m)
-BUILTINS = ('isinstance', 'str', 'list', 'len', 'max', 'min', 'super')
+EXNS = ('TypeError', 'ValueError', 'IndexError')
+BUILTINS = ('isinstance', 'str', 'list', 'len', 'max', 'min', 'super', 'getattr') + EXNS
+
+
+def safe_message(n):
+    """an expression that cannot fail to evaluate and has no effect (assert / raise text)"""
+    if isinstance(n, ast.Constant) and isinstance(n.value, str):
+        return True
+    if isinstance(n, ast.Name):
+        return True
+    if isinstance(n, ast.Tuple):
+        return all(safe_message(e) for e in n.elts)
+    if isinstance(n, ast.BinOp) and isinstance(n.op, ast.Mod) and isinstance(n.left, ast.Constant) \
+            and isinstance(n.left.value, str):
+        return safe_message(n.right)
+    if isinstance(n, ast.JoinedStr):
+        return all(isinstance(v, ast.Constant) or (isinstance(v, ast.FormattedValue) and v.format_spec is None
+                                                    and safe_message(v.value)) for v in n.values)
+    return False
+
+# what an additional method of TexArgs must not be called: the attributes of the base class
+LIST_ATTRS = frozenset(dir(list))
 LOPS = {'__init__': 'LInit', 'insert': 'LInsert', 'remove': 'LRemove', 'pop': 'LPop',
         'reverse': 'LReverse', 'clear': 'LClear', '__getitem__': 'LGetitem', 'index': 'LIndex',
         'append': 'LAppend'}
@@ -89,14 +173,7 @@ class TexExpr(object):
         return str(other) == str(self)
 
 class TexGroup(TexUnNamedEnv):
-    @classmethod
-    def parse(cls, s):
-        assert isinstance(s, str)
-        for arg in arg_type:
-            if s.startswith(arg.begin) and s.endswith(arg.end):
-                return arg(s[len(arg.begin):-len(arg.end)])
-        raise TypeError('Malformed argument: %s. Must be an TexGroup or a string in'
-                        ' either brackets or curly braces.' % s)
+    pass
 
 class BracketGroup(TexGroup):
     begin = '['
@@ -176,6 +253,8 @@ def check_module(tree):
         need([ast.dump(b) for b in cl.bases] == [ast.dump(b) for b in r.bases]
              and not cl.keywords and not cl.decorator_list, 'bases of %s changed' % r.name)
         for item in r.body:
+            if isinstance(item, ast.Pass):
+                continue
             if isinstance(item, ast.FunctionDef):
                 got = [x for x in cl.body if isinstance(x, ast.FunctionDef) and x.name == item.name]
                 need(len(got) == 1 and norm_fn(got[0]) == norm_fn(item),
@@ -203,23 +282,36 @@ def check_module(tree):
          and not cl.decorator_list, 'bases/decorators of TexArgs changed')
     meths = {}
     for st in strip_doc(cl.body):
-        need(isinstance(st, ast.FunctionDef) and not st.decorator_list and st.returns is None,
+        need(isinstance(st, ast.FunctionDef) and not st.decorator_list,
              'unexpected statement in class TexArgs at %s: %s' % (where(st), shape(st)))
         need(st.name not in meths, 'TexArgs.%s is defined twice' % st.name)
         meths[st.name] = st
-    need(sorted(meths) == sorted(TRANSLATED + UNTRANSLATED),
-         'the methods of TexArgs changed: %s' % sorted(meths))
-    return [(s.name, s) for s in strip_doc(cl.body) if s.name in TRANSLATED]
+    known = TRANSLATED + UNTRANSLATED
+    need(all(m in meths for m in known), 'the methods of TexArgs changed: %s' % sorted(meths))
+    for nm in sorted(meths):
+        if nm in known:
+            continue
+        # an additional method: harmless unless it overrides something of `list` (or a special
+        # method, or a name-mangled private one); a translated method cannot call it (Scope.ex)
+        need(not nm.startswith('_') and nm not in LIST_ATTRS and nm != 'all',
+             'the methods of TexArgs changed: %s' % sorted(meths))
+    # ---- TexGroup.parse: translated too
+    gp = [st for st in classes['TexGroup'].body if isinstance(st, ast.FunctionDef) and st.name == 'parse']
+    need(len(gp) == 1 and len(gp[0].decorator_list) == 1 and is_name(gp[0].decorator_list[0], 'classmethod')
+         and 'classmethod' not in bound, 'TexGroup.parse is no longer a plain classmethod')
+    for nm in ('BraceGroup', 'BracketGroup'):
+        need(not any(isinstance(x, ast.FunctionDef) and x.name in ('parse', '__init__', '__new__')
+                     for x in classes[nm].body), '%s defines parse / __init__' % nm)
+    return [(nm, meths[nm]) for nm in TRANSLATED] + [('parse', gp[0])]
 
 
 class Scope(object):
-    def __init__(self, fn):
+    def __init__(self, fn, classmethod_=False):
         a = fn.args
+        self.classmethod = classmethod_
         need(not a.vararg and not a.kwonlyargs and not a.kwarg and not a.kw_defaults
              and not getattr(a, 'posonlyargs', []) and len(a.args) >= 1,
              '%s: unsupported parameter list' % fn.name)
-        for x in a.args:
-            need(x.annotation is None, '%s: annotated parameter' % fn.name)
         self.owner = fn.name
         self.self_name = a.args[0].arg
         self.vars = {}
@@ -232,14 +324,17 @@ class Scope(object):
             need(not isinstance(n, (ast.FunctionDef, ast.AsyncFunctionDef, ast.ClassDef, ast.Lambda,
                                     ast.Yield, ast.YieldFrom, ast.Await, ast.With, ast.Import,
                                     ast.ImportFrom, ast.While, ast.Try, ast.NamedExpr, ast.ListComp,
-                                    ast.GeneratorExp, ast.SetComp, ast.DictComp, ast.Raise,
-                                    ast.Starred, ast.AugAssign, ast.Break, ast.Continue)) or n is fn,
+                                    ast.GeneratorExp, ast.SetComp, ast.DictComp,
+                                    ast.Starred, ast.Break, ast.Continue)) or n is fn,
                  '%s: unsupported construct at %s: %s' % (fn.name, where(n), type(n).__name__))
 
     def err(self, n, what):
         raise TranslationError('%s, %s: %s: %s' % (self.owner, where(n), what, shape(n)))
 
     def is_self(self, n):
+        # in a classmethod the first parameter is the class: it may not be used at all
+        if self.classmethod and is_name(n, self.self_name):
+            self.err(n, 'use of the class parameter of a classmethod')
         return is_name(n, self.self_name)
 
     def free(self, name):
@@ -267,9 +362,15 @@ class Scope(object):
             if isinstance(n.op, ast.USub) and isinstance(n.operand, ast.Constant) \
                     and type(n.operand.value) is int:
                 return 'EInt %s' % zlit(-n.operand.value)
+            if isinstance(n.op, ast.USub):
+                return 'ENeg (%s)' % self.ex(n.operand)
             if isinstance(n.op, ast.Not):
                 return 'ENot (%s)' % self.ex(n.operand)
             self.err(n, 'unsupported unary operator')
+        if isinstance(n, ast.Attribute) and isinstance(n.ctx, ast.Load) and n.attr in ('begin', 'end') \
+                and isinstance(n.value, ast.Name) and n.value.id in self.vars:
+            # a class attribute of a class object (defined on a class object only)
+            return 'EClsAttr %s (%s)' % ('true' if n.attr == 'end' else 'false', self.ex(n.value))
         if isinstance(n, ast.List):
             if n.elts == [] and isinstance(n.ctx, ast.Load):
                 return 'EEmptyList'
@@ -280,6 +381,8 @@ class Scope(object):
                 return 'ESelf'
             if n.id in self.vars:
                 return 'EVar %d%%nat' % self.vars[n.id]
+            if n.id == 'arg_type':
+                return 'EArgTypes'
             self.err(n, 'name that is neither a parameter nor a local')
         if isinstance(n, ast.BinOp):
             if isinstance(n.op, ast.Add):
@@ -302,6 +405,15 @@ class Scope(object):
             return 'ECmp %s (%s) (%s)' % (CMP[type(n.ops[0])], self.ex(n.left), self.ex(n.comparators[0]))
         if isinstance(n, ast.Subscript):
             need(isinstance(n.ctx, ast.Load), 'subscript context')
+            if isinstance(n.value, ast.Name) and n.value.id in self.vars:
+                idx = n.slice
+                if isinstance(idx, getattr(ast, 'Index', ())):
+                    idx = idx.value
+                if isinstance(idx, ast.Slice) and idx.step is None:
+                    return 'ESliceStr (%s) (%s) (%s)' % (
+                        self.ex(n.value), self.ex(idx.lower) if idx.lower is not None else 'ENone',
+                        self.ex(idx.upper) if idx.upper is not None else 'ENone')
+                self.err(n, 'subscript of a local other than a slice')
             if not self.is_self(n.value):
                 self.err(n, 'subscript of something other than self')
             return 'ECallMeth M_getitem (args_of [%s])' % self.index(n.slice)
@@ -325,7 +437,12 @@ class Scope(object):
                     return '%s (%s) (%s)' % ('EMax' if f.id == 'max' else 'EMin', self.ex(a[0]), self.ex(a[1]))
                 if f.id == 'TexArgs' and len(a) == 1:
                     return 'ENew (%s)' % self.ex(a[0])
+                if f.id == 'getattr' and len(a) == 3 and isinstance(a[1], ast.Constant) \
+                        and a[1].value == 'all':
+                    return 'EGetAllOr (%s) (%s)' % (self.ex(a[0]), self.ex(a[2]))
                 self.err(n, 'unsupported call')
+            if isinstance(f, ast.Name) and f.id in self.vars and len(a) == 1:
+                return 'ENewGroup (%s) (%s)' % (self.ex(f), self.ex(a[0]))
             if isinstance(f, ast.Attribute):
                 if self.is_super(f.value) and f.attr in LOPS:
                     return 'ELop RSuper %s %s' % (LOPS[f.attr], self.lop_args(f.attr, a))
@@ -341,6 +458,13 @@ class Scope(object):
                 if f.attr == 'isspace' and len(a) == 0 and isinstance(f.value, ast.Name) \
                         and f.value.id in self.vars:
                     return 'EIsSpace (%s)' % self.ex(f.value)
+                # methods of str (defined on a str only: EUnsup otherwise)
+                if f.attr in ('startswith', 'endswith') and len(a) == 1:
+                    return '%s (%s) (%s)' % ('EStartsWith' if f.attr == 'startswith' else 'EEndsWith',
+                                             self.ex(f.value), self.ex(a[0]))
+                if f.attr in ('lstrip', 'rstrip') and len(a) == 1:
+                    return 'EStrip %s (%s) (%s)' % ('true' if f.attr == 'rstrip' else 'false',
+                                                    self.ex(f.value), self.ex(a[0]))
             self.err(n, 'unsupported call')
         self.err(n, 'unsupported expression')
 
@@ -374,6 +498,15 @@ class Scope(object):
             self.err(s, 'unsupported assignment target')
         if isinstance(s, ast.Return):
             return ('atom', 'SReturn (%s)' % (self.ex(s.value) if s.value is not None else 'ENone'))
+        if isinstance(s, ast.Assert):
+            need(s.msg is None or safe_message(s.msg), '%s: assert message at %s' % (self.owner, where(s)))
+            return ('atom', 'SAssert (%s)' % self.ex(s.test))
+        if isinstance(s, ast.Raise):
+            need(s.cause is None and isinstance(s.exc, ast.Call) and isinstance(s.exc.func, ast.Name)
+                 and s.exc.func.id in EXNS and self.free(s.exc.func.id) and not s.exc.keywords
+                 and all(safe_message(x) for x in s.exc.args),
+                 '%s: unsupported raise at %s' % (self.owner, where(s)))
+            return ('atom', 'SRaise %s' % s.exc.func.id)
         if isinstance(s, ast.If):
             return ('if', self.ex(s.test), self.block(s.body), self.block(s.orelse))
         if isinstance(s, ast.For):
@@ -404,13 +537,15 @@ def default_value(fn, n):
     if isinstance(n, ast.UnaryOp) and isinstance(n.op, ast.USub) and isinstance(n.operand, ast.Constant) \
             and type(n.operand.value) is int:
         return 'VInt %s' % zlit(-n.operand.value)
-    if isinstance(n, ast.List) and n.elts == []:
-        return 'VArgs []'
+    if isinstance(n, (ast.List, ast.Tuple)) and n.elts == []:
+        return 'VArgs []'      # an empty iterable (the parameter is only iterated: translate_method)
     raise TranslationError('%s: unsupported default %s' % (fn.name, shape(n)))
 
 
-def translate_method(fn):
-    sc = Scope(fn)
+def translate_method(fn, classmethod_=False):
+    fn = ast.copy_location(ast.FunctionDef(name=fn.name, args=fn.args, body=normalise_block(strip_doc(fn.body)),
+                                           decorator_list=[], returns=None, type_comment=None), fn)
+    sc = Scope(fn, classmethod_)
     a = fn.args
     names = [x.arg for x in a.args[1:]]
     nd = len(a.defaults)
@@ -418,7 +553,7 @@ def translate_method(fn):
     params = ['None'] * (len(names) - nd) + ['Some (%s)' % default_value(fn, d) for d in a.defaults]
     # a parameter with a mutable default may only be iterated over
     for nm, d in zip(names[len(names) - nd:], a.defaults):
-        if isinstance(d, ast.List):
+        if isinstance(d, (ast.List, ast.Tuple)):
             sc.readonly.add(nm)
             uses = [n for n in ast.walk(fn) if isinstance(n, ast.Name) and n.id == nm]
             ok_ctx = set()
@@ -427,8 +562,16 @@ def translate_method(fn):
                     ok_ctx.add(id(n.iter))
                 if isinstance(n, ast.Call) and isinstance(n.func, ast.Attribute) \
                         and n.func.attr == 'extend' and is_name(n.func.value, sc.self_name) \
-                        and len(n.args) == 1 and is_name(n.args[0], nm):
-                    ok_ctx.add(id(n.args[0]))
+                        and len(n.args) == 1:
+                    arg = n.args[0]
+                    if is_name(arg, nm):
+                        ok_ctx.add(id(arg))
+                    # self.extend(getattr(p, 'all', p)): still only read
+                    if isinstance(arg, ast.Call) and is_name(arg.func, 'getattr') and not arg.keywords \
+                            and len(arg.args) == 3 and isinstance(arg.args[1], ast.Constant):
+                        for x in (arg.args[0], arg.args[2]):
+                            if is_name(x, nm):
+                                ok_ctx.add(id(x))
             need(all(id(u) in ok_ctx for u in uses),
                  '%s: the parameter %s (mutable default) is used other than as the argument of '
                  'self.extend / a for loop' % (fn.name, nm))
@@ -475,7 +618,7 @@ def generate():
     w('Import ListNotations.')
     w('')
     for name, fn in meths:
-        params, prog = translate_method(fn)
+        params, prog = translate_method(fn, name in EXTRA)
         w('(* def %s *)' % name)
         w('Definition %s : mdef :=' % GEN_NAME[name])
         w('  mkM [%s]' % '; '.join(params))
@@ -484,7 +627,7 @@ def generate():
         out.extend(lines)
         w('')
     w('Definition gen_a_cls : cls := fun m =>\n  match m with')
-    for n in TRANSLATED:
+    for n in TRANSLATED + EXTRA:
         w('  | %s => %s' % (COQ_METH[n], GEN_NAME[n]))
     w('  end.')
     return '\n'.join(out) + '\n'
